@@ -121,6 +121,18 @@ pub fn handle(op: &str, a: &[&str]) -> Option<String> {
             };
             Some(format!("{} {} {} {} {}", show_list(&adds), show_list(&idx), show_mat(&basis), show_list(&fac), det))
         }
+        // one `add` on a builder whose state is given as stored (Montgomery form words): reaches the
+        // panic sites of `add` that no sequence of `add` calls on a fresh builder reaches
+        ("im_ech_raw", [p, ind, basis, fac, row]) => {
+            let ind: Vec<usize> = list_of(ind)?;
+            let basis = mat_of::<u64>(basis)?;
+            let fac: Vec<u64> = list_of(fac)?;
+            let row: Vec<i64> = list_of(row)?;
+            let mut b = hd::echelon_from_parts(u64_of(p)?, ind, basis, fac);
+            let r = b.add(&row);
+            let (_, _, idx, basis, fac) = hd::echelon_parts(&b);
+            Some(format!("{} {} {} {}", r as u8, show_list(&idx), show_mat(&basis), show_list(&fac)))
+        }
         // determinant mod p through add/det only (panics like the real caller would)
         ("im_detp", [p, m]) => {
             let rows = mat_of::<i64>(m)?;
